@@ -9,6 +9,7 @@
 //! Observation per query (one line, same text printed by ocaml/run_lookup.ml):
 //!   B <canonical>:<type>|<serialized>:<type>   X <canonical>:<type>|<serialized>:<type>
 //!   D <owner class>:V<variant type>            (ReflectionDatabase::find_default_property; model: DbOwner.find_default_owner)
+//!   S <class>><superclass>>...                  (ReflectionDatabase::superclasses; model: DbOwner.chain_obs), once per class
 //! with `-` for an absent result / absent serialized descriptor and `PANIC` for a panic.
 //! Oracle lines (`<case> C16 <message>`): a lookup panicked, or the two copies disagree in a way
 //! other than the DoesNotSerialize difference (binary: canonical without serialized; xml: nothing).
@@ -100,6 +101,63 @@ pub fn observe_default(class: &str, prop: &str) -> (String, String) {
     (got, want)
 }
 
+/// `ReflectionDatabase::superclasses` observed as `A>B>...` (`noclass`, `PANIC`), and what the property's first clause
+/// demands of the three chain functions: `superclasses`, `superclasses_iter` and `has_superclass` describe the same
+/// chain, the chain follows the `superclass` fields and ends at a class without superclass (oracle lines)
+pub fn observe_chain(class: &str, orc: &mut Vec<String>) -> String {
+    let db = rbx_reflection_database::get();
+    let Some(cd) = db.classes.get(class) else { return "noclass".to_string() };
+    // the chain by the `superclass` fields alone
+    let mut want: Vec<String> = Vec::new();
+    let mut cur = Some(cd);
+    while let Some(c) = cur {
+        want.push(c.name.to_string());
+        if want.len() > db.classes.len() {
+            break;
+        }
+        cur = c.superclass.as_ref().and_then(|s| db.classes.get(s.as_ref()));
+    }
+    let got = catch_unwind(AssertUnwindSafe(|| db.superclasses(cd).map(|l| l.iter().map(|c| c.name.to_string()).collect::<Vec<_>>())));
+    let got = match got {
+        Err(_) => {
+            orc.push(format!("superclasses({class}) panics"));
+            return "PANIC".to_string();
+        }
+        Ok(None) => {
+            orc.push(format!("superclasses({class}) returns None for a class of the database"));
+            return "-".to_string();
+        }
+        Ok(Some(l)) => l,
+    };
+    if got != want {
+        orc.push(format!("superclasses({class}) = {} but the superclass fields give {}", got.join(">"), want.join(">")));
+    }
+    let it: Vec<String> = db.superclasses_iter(cd).take(db.classes.len() + 1).map(|c| c.name.to_string()).collect();
+    if it != want {
+        orc.push(format!("superclasses_iter({class}) = {} but the superclass fields give {}", it.join(">"), want.join(">")));
+    }
+    if let Some(last) = got.last().and_then(|n| db.classes.get(n.as_str())) {
+        if last.superclass.is_some() {
+            orc.push(format!("the chain superclasses({class}) stops at {} which is not a root class (its superclass is {:?})", last.name, last.superclass));
+        }
+    }
+    for a in &want {
+        if let Some(ad) = db.classes.get(a.as_str()) {
+            if !db.has_superclass(cd, ad) {
+                orc.push(format!("has_superclass({class}, {a}) is false although {a} is on the superclass chain of {class}"));
+            }
+        }
+    }
+    for other in ["Instance", "Part", "Folder", "DataModel", "ValueBase"] {
+        if let Some(od) = db.classes.get(other) {
+            if !want.iter().any(|w| w == other) && db.has_superclass(cd, od) {
+                orc.push(format!("has_superclass({class}, {other}) is true although {other} is not on the superclass chain of {class}"));
+            }
+        }
+    }
+    got.join(">")
+}
+
 fn chain_names(class: &str) -> BTreeSet<String> {
     let db = rbx_reflection_database::get();
     let mut names = BTreeSet::new();
@@ -163,6 +221,12 @@ pub fn cli(args: &[String]) -> bool {
                 for l in lines {
                     if let Some(c) = l.strip_prefix("class ") {
                         class = c.to_string();
+                        let mut lines: Vec<String> = Vec::new();
+                        let chain = observe_chain(&class, &mut lines);
+                        writeln!(obs, "S {chain}").unwrap();
+                        for m in lines {
+                            writeln!(orc, "{id} C16 {m}").unwrap();
+                        }
                         continue;
                     }
                     let Some(p) = l.strip_prefix("p ") else { continue };
